@@ -87,7 +87,8 @@ pub struct World {
 
 pub const DENOMS: [&str; 3] = ["ua", "ub", "uc"];
 /// rarely used denominations: an unrelated one and near misses of "ua" (other letter case, a prefix, an extension)
-pub const RARE_DENOMS: [&str; 5] = ["ux", "UA", "Ua", "u", "uab"];
+/// ... and denominations with characters that need escaping wherever a record is written as text
+pub const RARE_DENOMS: [&str; 9] = ["ux", "UA", "Ua", "u", "uab", "factory\\alice\\gold", "q\"uoted", "tab\there", "dénom"];
 
 impl World {
     pub fn new() -> World {
